@@ -10,6 +10,7 @@ requests:
                    "name"|"text"|"keep" [cp]; "nameOrClass" [[cp], bool]
   {"op":"place","R":[9 rat],"o":[3 rat],"pts":[[3 rat]…]}           → {"pts":[[3 rat]…]}
   {"op":"comp","R1":…,"o1":…,"R2":…,"o2":…}                          → {"R":[9 rat],"o":[3 rat]}
+  {"op":"fromtrig","t":[cp sp cy sy cr sr as rat]}                   → {"R":[9 rat]}
   {"op":"tex","ax":[5 rat],"p":[3 rat]}                              → {"t":rat}
   {"op":"subst","tbl":[[[cp],[cp]]…],"dflt":[cp],"text":[cp]}        → {"r":[cp]}
   {"op":"fixup","style":n,"inst":[cp],"name":[cp]}                   → {"r":[cp]}
@@ -159,6 +160,9 @@ def handle (j : Json) : Except String Json := do
     let P2 ← placementOf (← j.getObjVal? "R2") (← j.getObjVal? "o2")
     let P := P1.comp P2
     pure (Json.mkObj [("R", ofM3 P.R), ("o", ofV3 P.o)])
+  | "fromtrig" =>
+    let a ← ratsOf (← j.getObjVal? "t") 6
+    pure (Json.mkObj [("R", ofM3 (fromTrig ⟨a[0]!, a[1]!, a[2]!, a[3]!, a[4]!, a[5]!⟩))])
   | "tex" =>
     let ax ← axOf (← j.getObjVal? "ax")
     let p ← v3Of (← j.getObjVal? "p")
